@@ -524,9 +524,14 @@ void PoseidonGoldilocks::merkletree_avx512(Goldilocks::Element *tree, Goldilocks
         nThreads = omp_get_max_threads();
 
 #pragma omp parallel for num_threads(nThreads)
-    for (uint64_t i = 0; i < num_rows; i += 2)
+    for (uint64_t i = 0; i < num_rows - 1; i += 2)
     {
         linear_hash_avx512(&cursor[i * CAPACITY], &input[i * num_cols * dim], num_cols * dim);
+    }
+    if (num_rows % 2 == 1)
+    {
+        // unpaired last row: single-row path
+        linear_hash(&cursor[(num_rows - 1) * CAPACITY], &input[(num_rows - 1) * num_cols * dim], num_cols * dim);
     }
 
     // Build the merkle tree
@@ -567,7 +572,7 @@ void PoseidonGoldilocks::merkletree_batch_avx512(Goldilocks::Element *tree, Gold
         nThreads = omp_get_max_threads();
 
 #pragma omp parallel for num_threads(nThreads)
-    for (uint64_t i = 0; i < num_rows; i += 2)
+    for (uint64_t i = 0; i < num_rows - 1; i += 2)
     {
         Goldilocks::Element buff0[2 * nbatches * CAPACITY];
         for (uint64_t j = 0; j < nbatches; ++j)
@@ -584,6 +589,20 @@ void PoseidonGoldilocks::merkletree_batch_avx512(Goldilocks::Element *tree, Gold
             memcpy(&buff0[(j + nbatches) * CAPACITY], &buff2[CAPACITY], CAPACITY * sizeof(Goldilocks::Element));
         }
         linear_hash_avx512(&cursor[i * CAPACITY], buff0, nbatches * CAPACITY);
+    }
+    if (num_rows % 2 == 1)
+    {
+        // unpaired last row: single-row path
+        uint64_t i = num_rows - 1;
+        Goldilocks::Element buff0[nbatches * CAPACITY];
+        for (uint64_t j = 0; j < nbatches; j++)
+        {
+            uint64_t nn = batch_size;
+            if (j == nbatches - 1)
+                nn = nlastb;
+            linear_hash(&buff0[j * CAPACITY], &input[i * num_cols * dim + j * batch_size * dim], nn * dim);
+        }
+        linear_hash(&cursor[i * CAPACITY], buff0, nbatches * CAPACITY);
     }
 
     // Build the merkle tree
